@@ -15,6 +15,8 @@ THEOREMS = [
     'C13_never_false_success', 'C13_never_false_success_refuted_before_fix',
     'C13_cleanup', 'C13_no_remote_leftovers', 'C13_cleanup_refuted_before_fix',
     'C13_same_files_as_local', 'C13_cached_like_local',
+    'C13_effect_independent_of_preexisting', 'C13_job_input_complete', 'C13_hit_restores_exact', 'C13_miss_is_stored',
+    'C13_toolchain_too_large_every_request', 'C13_toolchain_fits_every_request',
     'C13_dist_args', 'C13_dist_args_ignore_pp_dep', 'C13_dist_lang_known',
     'C13_dist_args_refuted_before_fix', 'C13_dist_lang_refuted_before_fix',
 ]
@@ -30,6 +32,9 @@ ASSUMPTIONS = [
     'hand-crafted answer with another i32 is reduced mod 256, also proved)',
     'File::create failures are injected only on paths that do not pre-exist (a dangling symlink); cleanup errors other '
     'than NotFound are only logged by the code and not modelled',
+    'histories: one compiler, one source file with three edit variants, one declared output; the main cache never evicts; '
+    'the client toolchain cache holds a single toolchain (eviction of one toolchain by another, which can also leave a '
+    'dangling weak-map entry, is property C17\'s territory); the toolchain packager is replaced by one that writes SIZE bytes',
     'the Rust OutputsRewriter is a scripted stage (ok / error of each class); its dep-info rewriting is not modelled',
     'known -x language names (Model/DistArgs.known_x_langs) are taken from the gcc manual / clang Types.def and checked '
     'against the installed gcc and clang in the extra leg',
@@ -183,7 +188,8 @@ def locals_(raw):
 def gen_fallback_like(raw):
     def gen(rng, tier):
         out = []
-        pres = [[], [0], [0, 1, 2]] if raw else [[], [0]]
+        # pre-existing files: ( P KIND ), KIND 0 shorter / 1 as long as / 2 longer than what is written over them
+        pres = [[], [[0, 2]], [[0, 0], [1, 1], [2, 2]], [[0, 1], [1, 2], [2, 2]]] if raw else [[], [[0, 2]]]
         codes = [0, 1, 128, 255] if raw else [0, 1, 128]
         for name, f in fault_variants(raw):
             for local in locals_(raw):
@@ -195,7 +201,7 @@ def gen_fallback_like(raw):
         for outs in write_patterns(raw):
             for local in locals_(raw):
                 for pre in pres:
-                    if any(o[1] == b'create' and o[0] in pre for o in outs):
+                    if any(o[1] == b'create' and o[0] in [q[0] for q in pre] for o in outs):
                         continue
                     for code in ([0, 1] if raw else [0]):
                         out.append(base_script(code, outs, local, pre, 0))
@@ -217,7 +223,7 @@ def gen_fallback_like(raw):
                     continue
                 used.add(p)
                 outs.append([p, w])
-            pre = [p for p in (0, 1, 2) if rng.chance(1, 3)] if raw else ([0] if rng.chance(1, 3) else [])
+            pre = [[p, rng.below(3)] for p in (0, 1, 2) if rng.chance(1, 3)] if raw else ([[0, rng.below(3)]] if rng.chance(1, 3) else [])
             if not raw and any(o[1] == b'create' for o in outs):
                 pre = []
 
@@ -261,7 +267,7 @@ def raw_code(raw):
     return (raw >> 8) & 0xff if raw & 0x7f == 0 else None
 
 
-def mon_result(case, obs, request=False):
+def mon_result(case, obs, request=False, before=None):
     vs = []
     out, dt, st, fsl, ran, src = obs
     fsd = dict((e[0], e[1]) for e in fsl)
@@ -343,7 +349,8 @@ def mon_result(case, obs, request=False):
     if dt != b'dist_ok':
         for p, c in fsd.items():
             # (a leftover 'symlink' is the harness's own File::create fault injector, not data of the job)
-            if c in (b'remote', b'partial'):
+            # (in a history: unless it is what an earlier, completed job had put there)
+            if c in (b'remote', b'partial') and not (before is not None and before.get(p) == c):
                 vs.append('output %d (%s) of the failed distributed job is left behind' % (p, c.decode()))
     return vs
 
@@ -355,27 +362,201 @@ def mon_fallback(case, out):
         return ['malformed fallback observation %r (%s)' % (out, e)]
 
 
+def gen_request(rng, tier):
+    """histories of requests: ( PP ( STEP ... ) ), STEP = script fields + VARIANT + CLEAN"""
+    out = []
+
+    def step(script, variant=0, clean=0, pre=None):
+        s = list(script)
+        s[PRE] = pre or []
+        return s + [variant, clean]
+    ok = base_script(0, [[0, b'ok']], [b'exit', 0, 0, [0]], [], 0)
+    lcs = locals_(False)
+    for pp in (0, 1):
+        # a) every single fault, the request repeated (second one: hit if stored, else the same compile again)
+        for name, f in fault_variants(False):
+            for local in lcs:
+                for code in ([0, 1, 128] if name == 'none' else [0]):
+                    sc = f(base_script(code, None, local, [], 1))
+                    out.append([pp, [step(sc), step(sc, 0, 1)]])
+                    out.append([pp, [step(sc), step(sc), step(ok, 0, 1)]])
+        for outs in write_patterns(False):
+            for local in lcs:
+                sc = base_script(0, outs, local, [], 0)
+                out.append([pp, [step(sc), step(sc, 0, 1)]])
+        # b) edit histories: the object of the previous build is still at the path (longer / shorter / equal)
+        nodist = list(ok)
+        nodist[DIST] = 0
+        fb = list(ok)
+        fb[RUN] = b'job_not_found'
+        for a in (0, 1, 2):
+            for b in (0, 1, 2):
+                if a == b:
+                    continue
+                for second in (ok, fb, nodist):
+                    for first in (ok, nodist):
+                        out.append([pp, [step(first, a), step(second, b), step(second, b, 1), step(first, a)]])
+        # c) pre-existing files of every length kind under every way of producing the object
+        for k in (0, 1, 2):
+            for sc in (ok, fb, nodist):
+                for v in (0, 1, 2):
+                    out.append([pp, [step(sc, v, 0, [[0, k]]), step(sc, v, 1, [[0, k]])]])
+        # d) a first compile that fails (remotely / locally / falls back and fails), then the identical request
+        rfail = base_script(1, [], [b'exit', 0, 256, []], [], 0)
+        lfail = list(rfail)
+        lfail[DIST] = 0
+        ffail = list(rfail)
+        ffail[RUN] = b'job_not_found'
+        for first in (rfail, lfail, ffail):
+            for second in (rfail, lfail, ffail, ok, nodist, fb):
+                out.append([pp, [step(first), step(second)]])
+                out.append([pp, [step(first), step(first), step(second), step(second, 0, 1)]])
+    # e) PRNG histories
+    single = gen_fallback_like(False)
+    n = 1500 if tier == 'thorough' else 250
+    pool = [c for c in single(rng, 'quick')]
+    for _ in range(n):
+        steps = []
+        for _ in range(rng.range(2, 5)):
+            sc = rng.choice(pool)
+            v = rng.below(3) if rng.chance(1, 2) else 0
+            pre = sc[PRE]
+            if any(o[1] == b'create' for o in (sc[RUN][3] if isinstance(sc[RUN], list) and sc[RUN][0] == b'complete' else [])):
+                pre = []
+                clean = 1
+            else:
+                clean = 1 if rng.chance(1, 3) else 0
+            steps.append(step(sc, v, clean, pre))
+        out.append([rng.below(2), steps])
+    return out
+
+
 def mon_request(case, out):
     try:
-        first, second = out
-        vs = mon_result(case, first, request=True)
-        if first[0] == b'miss':
-            if not second or second[0] != b'hit':
-                vs.append('stored result is not served from the cache on the next identical request: %r' % (second,))
-            else:
-                if st_code(second[2]) != 0 or not second[2][2]:
-                    vs.append('cache hit with status %r' % (second[2],))
-                if second[3] != first[3] and [e for e in second[3] if e[0] == 0] != [e for e in first[3] if e[0] == 0]:
-                    vs.append('cache hit restores %r, the compile had produced %r' % (second[3], first[3]))
-                if second[5] != first[5]:
-                    vs.append('cache hit replays %s output, the compile had %s' % (second[5], first[5]))
-                if second[4]:
-                    vs.append('a compiler was run on a cache hit')
-        elif second:
-            vs.append('a request that was not a successful compile was stored in the cache')
+        pp, steps = case
+        vs = []
+        if len(out) != len(steps):
+            return ['malformed request observation %r' % (out,)]
+        stored = {}
+        disk = {}
+        for i, (st, o) in enumerate(zip(steps, out)):
+            cls, dt, status, fsl, ran, src, pprun, sent = o
+            v = st[10]
+            before = {} if st[11] else dict(disk)
+            for q in st[PRE]:
+                before[q[0] if isinstance(q, list) else q] = b'pre'
+            disk = dict((e[0], e[1]) for e in fsl)
+            where = 'request %d: ' % (i + 1)
+            # what a job is sent is the complete preprocessed translation unit
+            if sent != b'none' and sent != b'full':
+                vs.append(where + 'the job was sent %s translation unit instead of the preprocessed source'
+                          % ('an EMPTY' if sent == b'empty' else 'a wrong'))
+            if cls == b'hit':
+                if v not in stored:
+                    vs.append(where + 'served from the cache although no successful compile of this source was stored')
+                else:
+                    c0, s0 = stored[v]
+                    now = [e[1] for e in fsl if e[0] == 0]
+                    if now != [c0]:
+                        vs.append(where + 'cache hit restores %r, the compile had produced %r' % (now, c0))
+                    if src != s0:
+                        vs.append(where + 'cache hit replays %s output, the compile had %s' % (src, s0))
+                if st_code(status) != 0 or not status[2]:
+                    vs.append(where + 'cache hit with status %r' % (status,))
+                if ran or sent != b'none':
+                    vs.append(where + 'a compiler / job was run on a cache hit')
+                continue
+            if v in stored:
+                vs.append(where + 'a stored result is not served from the cache (%s)' % cls.decode())
+            vs += [where + x for x in mon_result(st, o[:6], request=True, before=before)]
+            if cls == b'miss':
+                stored[v] = ([e[1] for e in fsl if e[0] == 0] or [None])[0], src
         return vs
     except Exception as e:
         return ['malformed request observation %r (%s)' % (out, e)]
+
+
+def stats_request(case, out):
+    ks = ['pp=%d' % case[0], 'steps=%d' % len(case[1])]
+    try:
+        for st, o in zip(case[1], out):
+            ks.append('class=%s/%s' % (o[0].decode()[:20], o[1].decode()))
+            ks.append('sent=%s pprun=%d' % (o[7].decode(), o[6]))
+            ks.append('variant=%d' % st[10])
+            for q in st[PRE]:
+                ks.append('prekind=%d' % (q[1] if isinstance(q, list) else 0))
+    except Exception:
+        pass
+    return ks
+
+
+def shrink_request(case):
+    pp, steps = case
+    for i in range(len(steps)):
+        if len(steps) > 1:
+            yield [pp, steps[:i] + steps[i + 1:]]
+    for i, st in enumerate(steps):
+        for c in shrink_script(st[:10]):
+            yield [pp, steps[:i] + [c + st[10:]] + steps[i + 1:]]
+
+
+def neighbours_request(case):
+    pp, steps = case
+    yield [1 - pp, steps]
+    for i, st in enumerate(steps):
+        for k in (0, 1, 2):
+            c = list(st)
+            c[PRE] = [[0, k]]
+            yield [pp, steps[:i] + [c] + steps[i + 1:]]
+        for c in neighbours_script(st[:10]):
+            yield [pp, steps[:i] + [c + st[10:]] + steps[i + 1:]]
+    yield [pp, steps + steps]
+
+
+# ------------------------------------------------------------------ leg toolchain
+
+def gen_toolchain(rng, tier):
+    import itertools
+    out = []
+    lc_ok = [b'exit', 0, 0, [0]]
+    alpha = [[b'request', 1, lc_ok], [b'request', 0, lc_ok], b'restart', [b'request', 1, b'spawn_err']]
+    for limit, size in ((1000, 5000), (4999, 5000), (0, 1), (5000, 5000), (10000, 5000), (1 << 40, 7)):
+        for n in (1, 2, 3, 4):
+            for ops in itertools.product(alpha, repeat=n):
+                if n == 4 and tier != 'thorough' and ops[0] == b'restart':
+                    continue
+                if all(o == b'restart' for o in ops):
+                    continue
+                out.append([limit, size, list(ops)])
+    return out
+
+
+def mon_toolchain(case, out):
+    try:
+        limit, size, ops = case
+        vs = []
+        for i, (op, o) in enumerate(zip(ops, out)):
+            (weak, arch), r = o
+            where = 'op %d %s: ' % (i + 1, 'restart' if op == b'restart' else 'request')
+            if size > limit:
+                if weak:
+                    vs.append(where + 'the toolchain is recorded as available although it does not fit the cache')
+                if op != b'restart':
+                    if r[0] != b'err_toolarge':
+                        vs.append(where + 'the toolchain cache (%d bytes) is too small for the toolchain (%d bytes) but the '
+                                  'request is not reported as that error: %s/%s%s'
+                                  % (limit, size, r[0].decode(), r[1].decode(), ' (silent local fallback)' if r[4] else ''))
+                    if r[4]:
+                        vs.append(where + 'local compiler run although the toolchain cache error must be reported')
+            else:
+                if op != b'restart':
+                    if r[1] != b'dist_ok':
+                        vs.append(where + 'the toolchain fits but the request was not compiled remotely: %s/%s' % (r[0].decode(), r[1].decode()))
+                    if weak != arch or not arch:
+                        vs.append(where + 'weak map / toolchain cache inconsistent: weak=%d archive=%d' % (weak, arch))
+        return vs
+    except Exception as e:
+        return ['malformed toolchain observation %r (%s)' % (out, e)]
 
 
 def stats_script(case, out):
@@ -598,12 +779,23 @@ def _legs(tier):
             rule='exhaustive single faults: stage (packagers, put_toolchain, alloc_job incl. Fail, submit_toolchain incl. '
                  'JobNotFound/CannotCache, run_job incl. JobNotFound, each output position x create/copy/length failure, '
                  'rewrite) x error class (4xx, FileTooLarge, other) x local outcome (spawn error, exit 0/1/128, signals, '
-                 'with/without outputs) x need_toolchain x pre-existing files x remote exit code; plus PRNG multi-fault scripts'),
-        Leg('request', gen_fallback_like(False), monitor=mon_request, stats=stats_script,
-            shrink=shrink_script, neighbours=neighbours_script,
-            nontrivial=lambda case, out: True, shards=8,
-            rule='the same scripts (stages reachable for a C compilation) through the real get_cached_or_compile of a gcc '
-                 'CCompilation with a real DiskCache, followed by a second identical request'),
+                 'with/without outputs) x need_toolchain x pre-existing files (shorter / as long as / longer than the data written over them; listing is byte-exact) x remote exit code; plus PRNG multi-fault scripts'),
+        Leg('request', gen_request, monitor=mon_request, stats=stats_request,
+            shrink=shrink_request, neighbours=neighbours_request,
+            nontrivial=lambda case, out: True, shards=16,
+            rule='histories of 2-4 requests through the real get_cached_or_compile of a gcc CCompilation with a real '
+                 'DiskCache, preprocessor cache mode off AND on: every single fault repeated, edit histories over three '
+                 'source variants whose objects differ in length (previous object still at the path), pre-existing files '
+                 'shorter/equal/longer, failing first compiles (remote, local, fallback) followed by the identical request, '
+                 'PRNG histories; the scripted build server records the translation unit it is sent; outputs are compared '
+                 'byte for byte'),
+        Leg('toolchain', gen_toolchain, monitor=mon_toolchain,
+            stats=lambda case, out: ['fits=%d' % (case[1] <= case[0]), 'ops=%d' % len(case[2])],
+            shrink=lambda case: ([case[0], case[1], case[2][:i] + case[2][i + 1:]] for i in range(len(case[2])) if len(case[2]) > 1),
+            nontrivial=lambda case, out: len(case[2]) > 1,
+            rule='the real dist::ClientToolchains (toolchain cache + weak map on disk) behind the scripted client: every '
+                 'sequence of up to 4 requests (need_toolchain yes/no, local compiler ok/unstartable) and client restarts x '
+                 '6 limit/size pairs (too small, exactly fitting, ample)'),
         Leg('args', gen_args, monitor=mon_args, stats=stats_args, shrink=shrink_args, neighbours=neighbours_args,
             nontrivial=lambda case, out: out != b'err' and bool(out[1]),
             rule='exhaustive gcc/clang x rewrite_includes_only x 14 languages x suppress x double-dash with all argument '
